@@ -73,6 +73,8 @@ type Engine struct {
 	KV      storage.KvStorage
 	Cluster *testutils.MockCluster
 	PD      pd.Client
+	// Below is the engine-side fault layer under the metrics wrapper (metrics* kinds only)
+	Below   *gate.Faulty
 	cleanup func()
 }
 
@@ -121,19 +123,22 @@ func NewEngine(kind string) (*Engine, error) {
 		e.Kind = kind
 		return e, nil
 	case "metrics", "metrics-memkv":
-		return &Engine{Kind: kind, KV: imetrics.NewKvStorage(imemkv.NewKvStorage(), Metrics())}, nil
+		f := gate.NewFaulty(imemkv.NewKvStorage())
+		return &Engine{Kind: kind, KV: imetrics.NewKvStorage(f, Metrics()), Below: f}, nil
 	case "metrics-badger":
 		e, err := NewEngine("badger")
 		if err != nil {
 			return nil, err
 		}
-		return &Engine{Kind: kind, KV: imetrics.NewKvStorage(e.KV, Metrics()), cleanup: e.cleanup}, nil
+		f := gate.NewFaulty(e.KV)
+		return &Engine{Kind: kind, KV: imetrics.NewKvStorage(f, Metrics()), Below: f, cleanup: e.cleanup}, nil
 	case "metrics-tikv":
 		e, err := NewEngine("tikv")
 		if err != nil {
 			return nil, err
 		}
-		return &Engine{Kind: kind, KV: imetrics.NewKvStorage(e.KV, Metrics()), Cluster: e.Cluster, cleanup: e.cleanup}, nil
+		f := gate.NewFaulty(e.KV)
+		return &Engine{Kind: kind, KV: imetrics.NewKvStorage(f, Metrics()), Below: f, Cluster: e.Cluster, cleanup: e.cleanup}, nil
 	}
 	return nil, fmt.Errorf("unknown engine %q", kind)
 }
@@ -235,7 +240,7 @@ func NewEnv(o Options) *Env {
 	}
 	km.Special[prefix+"/compact_key"] = "compact"
 	km.Special[prefix+"/election"] = "election"
-	st := &gate.Store{Inner: o.Engine.KV, S: sched, Rec: rec, Keys: km, NoTTL: o.NoTTL, LogReads: o.LogReads, LogIter: o.LogIter, Partitions: o.Partitions}
+	st := &gate.Store{Below: o.Engine.Below, Inner: o.Engine.KV, S: sched, Rec: rec, Keys: km, NoTTL: o.NoTTL, LogReads: o.LogReads, LogIter: o.LogIter, Partitions: o.Partitions}
 	env := &Env{Eng: o.Engine, Store: st, Sched: sched, Rec: rec, Keys: km, Prefix: prefix, Base: o.Base}
 	current.Store(env)
 	if !o.NoBackend {
